@@ -30,6 +30,7 @@ Judge ==
      ELSE IF O.solve # "ok" THEN Reject("solve() did not complete for a valid parameter set")
      ELSE IF O.dtype # "float64" THEN Reject("values are not float64 although double precision is requested")
      ELSE IF ~O.sameasref THEN Reject("the routes / creation orders do not behave identically (different values)")
+     ELSE IF ~O.bok THEN Reject("a second solver built from the edited configuration object does not reflect the edited values")
      ELSE verdict' = "accepted" /\ PrintT(<<"ACCEPT", tid>>) /\ UNCHANGED tid
 
 Next == Judge
